@@ -245,7 +245,7 @@ def run(ctx):
                 '(3) a menu of %d standard values; (4) opt-in graphs with remote=False and through pickle/copy/deepcopy/ForkingPickler; '
                 '(5) every chain of 1-3 levels over signatures {none, (self), (self, remote=False), (self, **kw)%s} x {metaclass, duck-typed}; '
                 'x protocols %s; oracle = standard pickle' % (n_max, len(plain_variants()), len(std_menu()),
-                                                             '' if ctx.quick else ', __reduce__', list(protos)))
+                                                             ', __reduce__', list(protos)))
     # (1) opt-in-free graphs
     specs = []
     for n in range(1, n_max + 1):
@@ -327,7 +327,7 @@ def run(ctx):
                               'standard machinery works and never passes remote=True', engine='GRAPH')
     ctx.sample({'part': 'optin-remote-false', 'spec': ospecs[len(ospecs) // 2]})
     # (5) Warning clause
-    alphabet = ('n', 'p', 'r', 'k') if ctx.quick else ('n', 'p', 'r', 'k', 'R')
+    alphabet = ('n', 'p', 'r', 'k', 'R')
     nchains = 0
     for depth in (1, 2, 3):
         for chain in itertools.product(alphabet, repeat=depth):      # base first
@@ -335,6 +335,8 @@ def run(ctx):
                 nchains += 1
                 ctx.count()
                 exp = expected_chain(list(reversed(chain)))
+                if root == 'meta' and any(expected_chain(list(reversed(chain[:i + 1]))) == 'warning' for i in range(depth)):
+                    exp = 'warning'     # with the metaclass an inconsistent prefix cannot even be created
                 case = {'chain_base_first': ''.join(chain), 'root': root}
                 cls = make_chain(chain, root)
                 got = None
@@ -361,6 +363,13 @@ def run(ctx):
                             std = pickle.loads(pickle.dumps(o))
                             if g2 == 'plain' and G.canon(back) != G.canon(std):
                                 g2 = 'plain-but-differs-from-pickle'
+                            # remote=False must be standard pickling whatever the chain looks like
+                            try:
+                                loc = rp.loads(rp.dumps(o, remote=False))
+                                if G.canon(loc) != G.canon(std):
+                                    g2 += '+remote-false-differs'
+                            except BaseException as e:  # noqa
+                                g2 += '+remote-false-raises-' + type(e).__name__
                         except Warning:
                             g2 = 'warning'
                         except BaseException as e:  # noqa
